@@ -3,11 +3,14 @@
 import json, sys
 pid = sys.argv[1]
 wt = sys.argv[2]
+wave2 = len(sys.argv) > 3 and sys.argv[3] == "wave2"
+out = "/tmp/seedout/%s%s" % (pid, "w2" if wave2 else "")
 for l in open('/verif/properties.jsonl'):
     p = json.loads(l)
     if p['id'] == pid:
         break
-print(f"""You are given a scratch git worktree of the C project hroptatyr/dateutils at {wt} (already configured and built in-tree with autotools: run `make -j8` in it to rebuild, binaries are in {wt}/src, library sources in {wt}/lib, the test suite is `make -k check -j8` in {wt} and currently passes). Work ONLY inside {wt} (and /tmp/seedout/{pid} for your output); do not read or touch /verif or /repo.
+extra = (" This is a second round: avoid the most obvious site (the first mechanism listed); choose sites from the second half of the mechanisms list, or in a tool under src/ rather than the library where the property involves both, or in code shared with other features (option handling, default formats, buffer management, table generation). At least one of your two changes must need a multi-step sequence of operations, a particular order/history, an interaction of two options, or two cooperating edits at different sites to manifest." if wave2 else "")
+print(f"""You are given a scratch git worktree of the C project hroptatyr/dateutils at {wt} (already configured and built in-tree with autotools: run `make -j8` in it to rebuild, binaries are in {wt}/src, library sources in {wt}/lib, the test suite is `make -k check -j8` in {wt} and currently passes). Work ONLY inside {wt} (and {out} for your output); do not read or touch /verif or /repo.
 
 Here is a semantic property the software is supposed to satisfy:
 
@@ -20,12 +23,12 @@ anchored in: {', '.join(p['anchors']['files'])}
 mechanisms: {'; '.join(m['name'] + ' (' + m['where'] + ')' for m in p['anchors']['mechanism'])}
 observable at: {', '.join(p['anchors'].get('observe_at') or [])}
 
-Task: produce TWO different, independent, realistic source changes (the kind of slip a maintainer could make in a refactoring or an optimisation), each of which BREAKS this property while the project still compiles and the existing test suite (`make -k check -j8`, all tests) still passes. Prefer changes that need something specific to manifest - a particular input region (a year/century/range boundary, a particular weekday or month length), a multi-step sequence of operations, a particular order, an unusual but valid input, or two cooperating sites that each look fine alone - not changes that any ordinary use would expose at once, and not changes to inputs outside what the property covers. Do not weaken or edit the tests. Keep each change small (a few lines).
+Task: produce TWO different, independent, realistic source changes (the kind of slip a maintainer could make in a refactoring or an optimisation), each of which BREAKS this property while the project still compiles and the existing test suite (`make -k check -j8`, all tests) still passes. Prefer changes that need something specific to manifest - a particular input region (a year/century/range boundary, a particular weekday or month length), a multi-step sequence of operations, a particular order, an unusual but valid input, or two cooperating sites that each look fine alone - not changes that any ordinary use would expose at once, and not changes to inputs outside what the property covers. Do not weaken or edit the tests. Keep each change small (a few lines).{extra}
 
 For each change k in {{1,2}}:
 1. make the change in the worktree, rebuild (`make -j8`), run the full test suite and confirm it passes (report the PASS/FAIL totals);
-2. write a demonstration `/tmp/seedout/{pid}/change<k>/demo.sh` (a shell script using the built binaries in {wt}/src, taking the tree directory as $1, or a small C program plus build line) that exits non-zero / prints FAIL with the change and exits 0 / prints PASS without it; run it both ways to confirm (with the change applied, and after `git stash` / `git checkout -- .`);
-3. save the change as `/tmp/seedout/{pid}/change<k>/patch.diff` (`git diff` in the worktree) and write `/tmp/seedout/{pid}/change<k>/meta.json` with keys: property, summary (what was changed), needs (what is needed for it to manifest), demo (how to run it), tests (the totals you observed);
+2. write a demonstration `{out}/change<k>/demo.sh` (a shell script using the built binaries in {wt}/src, taking the tree directory as $1, or a small C program plus build line) that exits non-zero / prints FAIL with the change and exits 0 / prints PASS without it; run it both ways to confirm (with the change applied, and after `git stash` / `git checkout -- .`);
+3. save the change as `{out}/change<k>/patch.diff` (`git diff` in the worktree) and write `{out}/change<k>/meta.json` with keys: property, summary (what was changed), needs (what is needed for it to manifest), demo (how to run it), tests (the totals you observed);
 4. revert the worktree (`git checkout -- .`) before starting the next change.
 
-Finish with the worktree reverted. Final message: for each change a 3-line summary (what, what it needs to manifest, demo result with/without). Do not write anything outside {wt} and /tmp/seedout/{pid}.""")
+Finish with the worktree reverted. Final message: for each change a 3-line summary (what, what it needs to manifest, demo result with/without). Do not write anything outside {wt} and {out}.""")
